@@ -292,6 +292,86 @@ def race_cli(text, timeout_ms):
     return verdict, who, time.time() - t0
 
 
+def _first_ite_atom(t, limit=4000):
+    """An atomic condition of some ite inside t (breadth-first: outermost first)."""
+    from collections import deque
+    dq = deque([t])
+    seen = set()
+    n = 0
+    while dq and n < limit:
+        x = dq.popleft()
+        n += 1
+        if x.get_id() in seen:
+            continue
+        seen.add(x.get_id())
+        if z3.is_app(x) and x.decl().kind() == z3.Z3_OP_ITE:
+            c = x.arg(0)
+            # descend to an atom of the condition
+            while z3.is_and(c) or z3.is_or(c) or z3.is_not(c):
+                c = c.arg(0)
+            if not (z3.is_true(c) or z3.is_false(c)):
+                return c
+        dq.extend(x.children())
+    return None
+
+
+def _assign_atom(atom, val):
+    subs = [(atom, z3.BoolVal(val))]
+    if val and z3.is_eq(atom):
+        a, b = atom.arg(0), atom.arg(1)
+        from .engine import _is_literal_term
+        for x, y in ((a, b), (b, a)):
+            if _is_literal_term(y) and not _is_literal_term(x):
+                subs.append((x, y))
+                break
+    if val and z3.is_app(atom) and atom.decl().kind() == z3.Z3_OP_DT_IS and atom.arg(0).sort() == V:
+        t = atom.arg(0)
+        for cn in smt.CTORS:
+            other = getattr(V, "is_" + cn)(t)
+            if not z3.eq(other, atom):
+                subs.append((other, z3.BoolVal(False)))
+    return subs
+
+
+def equal_by_cases(hyps, ta, tb, budget):
+    """Prove hyps => ta == tb by Shannon expansion over the conditions of the ite-terms in ta / tb: each leaf is
+    a syntactic identity or a small solver query. Returns True / False (could not prove). budget: dict with
+    'leaves' and 'deadline'."""
+    stack = [(ta, tb, [])]
+    while stack:
+        a, b, assum = stack.pop()
+        if time.time() > budget["deadline"] or budget["leaves"] <= 0:
+            return False
+        a, b = simp(a), simp(b)
+        if z3.eq(a, b):
+            continue
+        atom = _first_ite_atom(a)
+        if atom is None:
+            atom = _first_ite_atom(b)
+        if atom is None:
+            budget["leaves"] -= 1
+            s = z3.Solver()
+            s.set("timeout", 3000)
+            for h in hyps:
+                s.add(h)
+            for x in assum:
+                s.add(x)
+            s.add(a != b)
+            r = s.check()
+            if r != z3.unsat:
+                if os.environ.get("PYVC_CASEDBG"):
+                    print("LEAF", r, "\n  A:", str(a)[:1500], "\n  B:", str(b)[:1500], "\n  assum:", [str(x)[:150] for x in assum][:30])
+                    if r == z3.sat:
+                        print("  model:", str(s.model())[:1200])
+                budget["fail"] = (a, b, assum)
+                return False
+            continue
+        for val in (True, False):
+            subs = _assign_atom(atom, val)
+            stack.append((z3.substitute(a, *subs), z3.substitute(b, *subs), assum + [atom if val else z3.Not(atom)]))
+    return True
+
+
 def pointwise_lemmas(ctx, hyps, terms, timeout_ms):
     apps = _apps_of(terms, set(ctx.folds))
     names = sorted(apps)
@@ -311,7 +391,7 @@ def pointwise_lemmas(ctx, hyps, terms, timeout_ms):
             for x, y in pairs[:6]:
                 lo, hi = x.arg(0), x.arg(1)
                 s = z3.Solver()
-                s.set("timeout", min(timeout_ms, 5000))
+                s.set("timeout", min(timeout_ms, 1500))
                 for h in hyps:
                     s.add(h)
                 s.add(lo == y.arg(0), hi == y.arg(1))
@@ -321,7 +401,12 @@ def pointwise_lemmas(ctx, hyps, terms, timeout_ms):
                 for f in fb.facts:
                     s.add(z3.substitute(f, (fb.K0, K)))
                 s.add(lo <= K, K < hi, pa != pb)
-                if s.check() == z3.unsat:
+                ok = s.check() == z3.unsat
+                if not ok:
+                    side = list(hyps) + [lo == y.arg(0), hi == y.arg(1), lo <= K, K < hi]
+                    side += [z3.substitute(f, (fa.K0, K)) for f in fa.facts] + [z3.substitute(f, (fb.K0, K)) for f in fb.facts]
+                    ok = equal_by_cases(side, pa, pb, {"leaves": 3000, "deadline": time.time() + max(20, timeout_ms / 1000 * 3)})
+                if ok:
                     out.append(z3.Implies(z3.And(lo == y.arg(0), hi == y.arg(1)), x == y))
     return out
 
